@@ -188,6 +188,23 @@ def run(case):
         if not (good.ok and good.value):
             return fail(what, o.value, exp)
 
+    # right after this array, a second one over the same cells whose row-lengths vector has another integer width but the very same bytes
+    # (int64 [3, 2] and int32 [3, 0, 2, 0]; the totals agree): it has ITS row lengths, whatever was built just before
+    if 0 < n <= 2000 and case["ctor"] in ("flat", "flat_nplens", "flatlist", "rows", "pyrows"):
+        CTX.tick("c01:byte-twin")
+        L64 = np.array(lens, dtype=np.int64)
+        attempt(lambda: RA(flat.copy(), L64))
+        for tw_ in (L64.view(np.int32).copy(), L64.view(np.uint16).copy(), L64.view(np.uint8).copy()):
+            tl_ = [int(x) for x in tw_.tolist()]
+            if sum(tl_) != tot:
+                continue          # (lengths beyond the narrower type's range do not split into equal-sum pieces)
+            o = attempt(lambda: RA(flat.copy(), tw_))
+            if not o.ok:
+                return fail("construction with the lengths given as %s %s" % (tw_.dtype, short(tl_, 80)), repr(o), "an array with these row lengths")
+            got_ = attempt(lambda: (len(o.value), np.asarray(o.value.lengths).tolist(), o.value.ravel().tolist()))
+            if not got_.ok or got_.value[0] != len(tl_) or got_.value[1] != tl_ or not eqrow(np.asarray(got_.value[2], dtype=flat.dtype) if dt.kind != "O" else got_.value[2], flat, dtype=False):
+                return fail("the array built next from the same cells with lengths %s %s" % (tw_.dtype, short(tl_, 80)), repr(got_) if not got_.ok else (got_.value[0], short(got_.value[1], 80)), (len(tl_), short(tl_, 80)))
+            attempt(lambda: RA(flat.copy(), L64))
     # conversions return independent arrays: overwriting them must not change what the array reports (numpy's astype copies)
     CTX.tick("c01:result-independent", tot > 0)
     for what, f in (("astype(own dtype)", lambda: ra.astype(dt)), ("astype(float64)", lambda: ra.astype(np.float64)), ("tolist", lambda: ra.tolist())):
